@@ -396,7 +396,7 @@ def gen_exhaustive(module, cfg, workdir, timeout=1800, workers=None):
     return vals, res
 
 
-BAD_RE = re.compile(r'^<<"(VFBAD|VFDRIFT)", (\d+), ([^,]+), (\{.*\})>>$')
+BAD_RE = re.compile(r'<<\s*"(VFBAD|VFDRIFT)",\s*(\d+),\s*("[^"]*"|[^,\s]+),\s*(\{[^}]*\})\s*>>', re.S)
 
 
 def validate_trace(module, cfg, trace_path, workdir, timeout=1800, env=None, heap="12g"):
@@ -407,12 +407,10 @@ def validate_trace(module, cfg, trace_path, workdir, timeout=1800, env=None, hea
         e.update(env)
     res = tlc(module, cfg, workdir, workers=1, env=e, timeout=timeout, deadlock=False, heap=heap)
     bad, drift = [], []
-    for line in res["out"].splitlines():
-        m = BAD_RE.match(line.strip())
-        if m:
-            kind, ln, tid, flags = m.groups()
-            fl = sorted(x.strip().strip('"') for x in flags.strip("{}").split(",") if x.strip())
-            (bad if kind == "VFBAD" else drift).append((int(ln), tid.strip().strip('"'), fl))
+    for m in BAD_RE.finditer(res["out"]):
+        kind, ln, tid, flags = m.groups()
+        fl = sorted(x.strip().strip('"') for x in flags.strip("{}").split(",") if x.strip())
+        (bad if kind == "VFBAD" else drift).append((int(ln), tid.strip().strip('"'), fl))
     if res["timeout"]:
         raise Inconclusive(f"trace validation timed out ({module})")
     accepted = res["ok"]
